@@ -878,6 +878,37 @@ fn limit_pl_cases() -> Vec<(String, String, usize)> {
     out
 }
 
+/// Files at the maximum length a TFM can declare (lf = 0x7FFF = 32767 words = 131068 bytes) whose size
+/// words sum to 32767 + delta with one table taking the bulk. Case idx -> (description, bytes, true sum).
+const MAXLEN_BULK: [&str; 5] = ["lh", "nw", "nl", "nk", "np"];
+const MAXLEN_DELTA: [i64; 6] = [-1, 0, 1, 2, 12, 32767];
+const MAXLEN_BYTES: [usize; 3] = [131064, 131068, 131072];
+const N_MAXLEN: u64 = 5 * 6 * 3 * 2;
+fn max_len_case(idx: u64) -> (String, Vec<u8>, i64) {
+    let d = vcore::digits(idx, &[5, 6, 3, 2]);
+    let (bulk, delta, len, ff) = (d[0] as usize, MAXLEN_DELTA[d[1] as usize], MAXLEN_BYTES[d[2] as usize], d[3] == 1);
+    // lf lh bc ec nw nh nd ni nl nk ne np
+    let mut v: [i64; 12] = [0x7fff, 2, 1, 0, 1, 1, 1, 1, 0, 0, 0, 0];
+    let pos = [1usize, 4, 8, 9, 11][bulk];
+    let rest: i64 = 6 + 2 + 4 - v[pos];
+    let mut second = None;
+    if delta == 32767 {
+        // far too much: two tables at 32767 words each
+        v[pos] = 32767;
+        let other = if pos == 8 { 9 } else { 8 };
+        v[other] = 32767;
+        second = Some(other);
+    } else {
+        v[pos] = (32767 + delta - rest).min(32767);
+    }
+    let sum: i64 = 6 + v[1] + (v[3] - v[2] + 1) + v[4..].iter().sum::<i64>();
+    let mut b: Vec<u8> = vec![if ff { 0xff } else { 0 }; len];
+    for (i, x) in v.iter().enumerate() {
+        b[2 * i..2 * i + 2].copy_from_slice(&(*x as u16).to_be_bytes());
+    }
+    (format!("{len} bytes, lf = 32767, {} = {}{}, size words sum to {sum}, payload {}", MAXLEN_BULK[bulk], v[pos], second.map(|o| format!(" and word {o} = 32767")).unwrap_or_default(), if ff { "0xFF" } else { "0x00" }), b, sum)
+}
+
 const VOCAB: &[&str] = &[
     "(", ")", "CHARACTER", "C", "A", "LIGTABLE", "LABEL", "LIG", "KRN", "STOP", "SKIP", "D", "R", "1", "256", "-1", "BOUNDARYCHAR", "NEXTLARGER", "VARCHAR", "REP", "CHARWD", "DESIGNSIZE", "CHECKSUM", "HEADER", "FONTDIMEN", "PARAMETER", "O", "é", "\r", "\r\n", "\n\r", "😀",
 ];
@@ -1032,6 +1063,7 @@ impl Families {
             Fam { name: "pl-templates", bounds: format!("{} property list templates with every combination of hole values from lattices of {} fix_word texts, {} character code forms and {} integers (boundaries of every documented range)", TEMPLATES.len(), FIX.len(), CODES.len(), INTS.len()), n: *template_sizes().last().unwrap() },
             Fam { name: "pl-short-texts", bounds: format!("every text of <= {} tokens over a {}-token vocabulary (parentheses, property names, prefixes, numbers)", self.vocab_len, VOCAB.len()), n: vcore::strings_upto(VOCAB.len() as u64, self.vocab_len) },
             Fam { name: "tfm-size-limits", bounds: format!("{} size-consistent synthetic fonts: one of lh, nw, nh, nd, ni, nl, nk, ne, np, bc..ec at a time at its minimum, at the largest value its index field can address, one beyond, and near the 15-bit limit (lh 2..32000 incl. 271..275, nw/nh/nd/ni 1..32000, nl 0..32700 incl. 32509..32511, nk, ne 254..257, np 253..257), all tables at their maximum with 256 characters; characters pointing at the first or at the last entry", self.limit_tfms().len()), n: self.limit_tfms().len() as u64 },
+            Fam { name: "tfm-max-length", bounds: "files of 131064 / 131068 / 131072 bytes declaring lf = 0x7FFF whose size words sum to 32766, 32767, 32768, 32769, 32779 and 65000+ words, the bulk in lh / nw / nl / nk / np (far too much: two tables at 32767), payload all 0x00 and all 0xFF".into(), n: N_MAXLEN },
             Fam { name: "tfm-header-bytes", bounds: "every byte of the header of two synthetic fonts (lh = 18 and lh = 20) set to every value 0..255 (checksum, design size, both string lengths and contents, seven-bit-safe byte, face byte, extra words)".into(), n: self.hdr_sweep.iter().map(|x| (x.1.len().min(24 + 80) - 24) as u64 * 256).sum() },
             Fam { name: "pl-size-limits", bounds: format!("{} property lists at the table-size limits: LIGTABLEs of 32509/32510/32511/40000/70000 instructions, 254/255/256 VARCHAR characters, 254..256 characters with as many distinct dimensions in one NEXTLARGER chain, 253..256/1000 parameters, math-font parameter counts, HEADER D 18..254/255/256/300, 255..32510 distinct kerns, string lengths 39..41/19..21/300, every FACE code 0..256", self.limit_pls().len()), n: self.limit_pls().len() as u64 },
             Fam { name: "pl-line-endings", bounds: format!("{} texts (every corpus property list of the token-fault family and every template, one property per line) x line ends CR LF / CR / CR CR LF, truncated at every byte position (incl. between CR and LF and after a final CR)", self.line_endings(d).0.len() / 3), n: *self.line_endings(d).1.last().unwrap() },
@@ -1130,6 +1162,13 @@ impl Families {
             "tfm-size-limits" => {
                 let (what, b) = &self.limit_tfms()[idx as usize];
                 check_bytes(w, idx, b, &|| bytes_case(fam, idx, b, what.clone()));
+            }
+            "tfm-max-length" => {
+                let (what, b, sum) = max_len_case(idx);
+                if sum > 32767 && b.len() >= 131068 {
+                    w.acc.count("tfm_file_of_max_length_with_oversized_tables");
+                }
+                check_bytes(w, idx, &b, &|| json!({"kind": "bytes", "family": fam, "index": idx, "tier": tier_name(), "what": what, "len": b.len()}));
             }
             "tfm-header-bytes" => {
                 let mut r = idx;
@@ -1530,6 +1569,7 @@ fn main() {
             eprintln!("  distinct failing site {}: {} -> {}", k + 1, vcore::clip(&f.observed, 140), p.display());
         }
     }
+    ctx.require("tfm_file_of_max_length_with_oversized_tables", "a file of at least 131068 bytes with lf = 0x7FFF whose size words sum to more than 32767");
     ctx.require("other_display_formats_converted", "byte strings that convert were also converted with the Ascii and Octal display formats");
     ctx.require("faulted_tfm_passes_size_checks", "faulted byte strings whose size table is still consistent (the reader goes past the header checks)");
     ctx.require("faulted_pl_with_balanced_parentheses", "faulted texts that are still balanced property lists (the parser goes past the structure checks)");
